@@ -406,8 +406,8 @@ def impl_undo(which: str, p: str) -> str:
 
     if which == "greenery":
         return impl_greenery(p)
-    fn = xsd_main._undo_escaping_backslash_x_in_pattern if which == "undox" else xsd_main._escape_carets_and_dollars_rendered_by_greenery
     try:
+        fn = xsd_main._undo_escaping_backslash_x_in_pattern if which == "undox" else xsd_main._escape_carets_and_dollars_rendered_by_greenery
         return "ok " + enc_text(fn(p))
     except BaseException as e:  # noqa
         return "crash " + ("ValueError" if isinstance(e, (ValueError, OverflowError)) else type(e).__name__)
